@@ -40,9 +40,14 @@ pub enum Case {
 }
 
 fn lex_all(bytes: &[u8]) -> (Vec<ETok>, Option<i16>) {
+    lex_with(Tokenizer::new(bytes), bytes.len())
+}
+
+fn lex_with(tokenizer: Tokenizer, len: usize) -> (Vec<ETok>, Option<i16>) {
+    let bytes_len = len;
     let mut out = Vec::new();
-    for (n, t) in Tokenizer::new(bytes).enumerate() {
-        if n > bytes.len() + 1 {
+    for (n, t) in tokenizer.enumerate() {
+        if n > bytes_len + 1 {
             return (out, Some(i16::MIN));
         }
         match t {
@@ -561,7 +566,7 @@ fn check_bytes(bytes: &[u8], obs: &Obs, key: &Case) -> CheckResult {
     match &verdict {
         Verdict::Unknown => {
             obs.label("recogniser: no claim");
-            return Ok(());
+            return params_differential(bytes, obs);
         }
         Verdict::WellFormed(t) => {
             obs.label("recogniser: well-formed");
@@ -602,6 +607,55 @@ fn check_bytes(bytes: &[u8], obs: &Obs, key: &Case) -> CheckResult {
             }
         }
         Verdict::Unknown => unreachable!(),
+    }
+    params_differential(bytes, obs)
+}
+
+/// The public constructor `Tokenizer::new_params` lexes a bare parameter list.
+/// Oracle: the recogniser's verdict on `"A " ++ bytes` (one unit, no `;`): the
+/// elements after the header separator, and the same rejection point.
+fn params_differential(bytes: &[u8], obs: &Obs) -> CheckResult {
+    use crate::model::lex488::{recognise, Verdict};
+    // (a list that starts with white space is not judged: in this mode the lexer reports the
+    // white space as a header separator, and nothing says what a bare list may start with)
+    if bytes.len() > 4096 || bytes.first().map_or(true, |c| c.is_ascii_whitespace()) {
+        return Ok(());
+    }
+    let mut m = b"A ".to_vec();
+    m.extend_from_slice(bytes);
+    let (want, listed): (Vec<ETok>, Option<&'static str>) = match recognise(&m) {
+        Verdict::WellFormed(t) => (t, None),
+        Verdict::Listed { prefix, what } => (prefix, Some(what)),
+        Verdict::Unknown => return Ok(()),
+    };
+    if want.len() < 2 || want[0] != ETok::Mnemonic(B(b"A".to_vec())) || want[1] != ETok::HeaderSep || want.iter().any(|t| *t == ETok::UnitSep) {
+        return Ok(());
+    }
+    let want = &want[2..];
+    let (got, err) = lex_with(Tokenizer::new_params(bytes), bytes.len());
+    obs.label("parameter-list constructor judged");
+    match listed {
+        None => {
+            ensure!(err.is_none() && got == want, "params-lex-mismatch", "Tokenizer::new_params({:?}): {} (error {:?})", escape(bytes), first_difference(&got, want), err);
+        }
+        Some(what) => {
+            for (i, w) in want.iter().enumerate() {
+                match got.get(i) {
+                    Some(g) if g == w => {}
+                    Some(g) => fail!("params-prefix-differs", "Tokenizer::new_params({:?}) ({what}): element {i} is {g:?}, expected {w:?} before the violation", escape(bytes)),
+                    None => {
+                        ensure!(err.is_none(), "params-early-error", "Tokenizer::new_params({:?}) ({what}): error after {} elements, {} precede the violation", escape(bytes), got.len(), want.len());
+                        break;
+                    }
+                }
+            }
+            let allowed_extra = if what.starts_with("non-ASCII byte") { 1 } else { 0 };
+            ensure!(got.len() <= want.len() + allowed_extra, "params-corruption-accepted", "Tokenizer::new_params({:?}) ({what}): yields {:?} at/after the violation instead of rejecting it", escape(bytes), &got[want.len().min(got.len())..]);
+            match err {
+                Some(code) => ensure!(is_command_error(code), "params-error-class", "Tokenizer::new_params({:?}) ({what}): rejected with {code}, not a command error", escape(bytes)),
+                None => fail!("params-corruption-accepted", "Tokenizer::new_params({:?}) ({what}): reaches the end without an error", escape(bytes)),
+            }
+        }
     }
     Ok(())
 }
